@@ -427,11 +427,19 @@ def _restore_never_unsets(ctx, mod, meths):
             if not dels and not sets:
                 continue
             lits = {}
+            members = set()
             for e, pol in pth.conds:
                 for e2, p2 in _dt.branches(e, pol)[0] if len(_dt.branches(e, pol)) == 1 else [_dt.normalise(e, pol)]:
                     e3, p3 = _dt.normalise(e2, p2)
                     if isinstance(e3, ast.Compare) and len(e3.ops) == 1 and isinstance(e3.ops[0], (ast.Is, ast.Eq)) and isinstance(e3.left, ast.Name):
                         lits[(unparse(e3.left), unparse(e3.comparators[0]))] = p3
+                    if isinstance(e3, ast.Compare) and len(e3.ops) == 1 and isinstance(e3.ops[0], (ast.In, ast.NotIn)) and isinstance(e3.comparators[0], ast.Name) and p3 == isinstance(e3.ops[0], ast.In):
+                        members.add(unparse(e3.left))
+            if dels and sets and all(_is(c, ("del_locally",)) and c.args and unparse(c.args[0]) in members for c in dels):
+                # the value is written back and then only the thread-private *copy* is dropped, for keys on record
+                # (`k in <set filled at capture time>`): the variable keeps resolving - not an unset (C11.R9 judges
+                # the record itself)
+                dels = []
             if dels:
                 del_lits.append(lits)
             if sets:
@@ -550,7 +558,17 @@ def getitem_invalidation(ctx, rule, gi=None):
     for dr in drops:
         gate = next((a for a in ancestors(dr) if isinstance(a, ast.If)), None)
         conj = conjuncts(gate.test) if gate is not None else []
-        extra = [c_ for c_ in conj if not (isinstance(c_, ast.Call) and call_name(c_) == "isinstance" and len(c_.args) == 2 and "Mutable" in unparse(c_.args[1]))]
+        emod = ctx.repo.module(EN)
+
+        def _types_text(e):
+            # the tuple / union of container ABCs may be a module-level constant
+            if isinstance(e, ast.Name) and e.id in emod.assigns:
+                v_ = getattr(emod.assigns[e.id][-1], "value", None)
+                if v_ is not None:
+                    return unparse(v_)
+            return unparse(e)
+
+        extra = [c_ for c_ in conj if not (isinstance(c_, ast.Call) and call_name(c_) == "isinstance" and len(c_.args) == 2 and "Mutable" in _types_text(c_.args[1]))]
         nested = [a for a in ancestors(dr) if isinstance(a, ast.If) and a is not gate and lexically_inside(a, gi)]
         ctx.ob(rule, f"{EN}:Env.__getitem__", "the memo is dropped for every mutable container that is handed out (the guard is the mutable-container test alone)", gate is not None and not extra and not nested, key="getitem|invalidation-exempts-some-containers", where=loc(extra[0]) if extra else loc(dr), detail=f"also required: `{short(extra[0], 60)}`" if extra else None)
 
